@@ -182,6 +182,14 @@ def main(tier):
                         if pf and r.random() < 0.15:
                             bs = isa.directed_bytes(r.choice(pf), e, r, tail=0) + bs
                         inputs.append(("directed", bs))
+                    # every non-prefix spec is also reached behind prefixes (operand/address-size overrides,
+                    # segment, lock/rep …): two random ones in quick, each prefix spec in thorough
+                    if pf and s.pfx is not True:
+                        size_pf = [x for x in pf if x.fix.ival in (0x66, 0x67)]      # operand/address-size overrides
+                        for p_ in ((size_pf + r.sample(pf, min(1, len(pf)))) if quick else pf):
+                            # variable-length specs (ModRM forms …) get three samples per prefix
+                            for _ in range(3 if s.size == 0 else 1):
+                                inputs.append(("prefixed", isa.directed_bytes(p_, e, r, tail=0) + isa.directed_bytes(s, e, r)))
             for _ in range(40 if quick else 2000):
                 inputs.append(("random", bytes(r.getrandbits(8) for _ in range(r.randrange(0, I.maxlen + 5)))))
             hooks_reached = set()
